@@ -459,13 +459,38 @@ def main(run):
             full = dict(pars, scale=scale, background=bg)
             desc = dict(desc0, pars=pars, cutoff=cutoff, mode=mode, scale=scale, background=bg, q=[x.tolist() for x in q], kind=kind)
             kc, kpy = mc.make_kernel(q), mp.make_kernel(q)
+            # the mesh the interfaces build; every third dispersed case it is then handed to the kernels with
+            # UN-NORMALISED weights (Kernel.Fq documents them as legal: array distributions, hand-made meshes):
+            # the longest distribution scaled up, the others down, so that outer partial products fall below the
+            # cutoff while the full product does not
+            mesh = get_mesh(info, dict(full), dim="2d" if two_d else "1d")
+            unnorm = kind in ("pd", "pd2") and rng.random() < 0.4 and max(len(mm[2]) for mm in mesh) > 1
+            if unnorm:
+                lens_ = [len(mm[2]) for mm in mesh]
+                longest = int(np.argmax(lens_))
+                fac = rng.choice([30.0, 1e3, 1e5])
+                nact = sum(1 for n_ in lens_ if n_ > 1)
+                mesh = [(v, vals, np.asarray(w, "d") * (fac if k == longest else (fac ** (-1.0 / max(1, nact - 1)) if len(w) > 1 else 1.0)))
+                        for k, (v, vals, w) in enumerate(mesh)]
+                stats["unnormalised_meshes"] = stats.get("unnormalised_meshes", 0) + 1
+                desc["unnormalised_weights"] = True
+
+            def via_mesh(kern, fq_mode=None):
+                call_details, values, is_magnetic = make_kernel_args(kern, mesh)
+                if fq_mode is None:
+                    return kern(call_details, values, cutoff, is_magnetic)
+                return kern.Fq(call_details, values, cutoff, is_magnetic, fq_mode)
             try:
-                Ic = np.asarray(call_kernel(kc, dict(full), cutoff=cutoff))
-                Ip = np.asarray(call_kernel(kpy, dict(full), cutoff=cutoff))
-                Fc = call_Fq(kc, dict(pars, radius_effective_mode=mode), cutoff=cutoff)
+                if unnorm:
+                    Ic = np.asarray(via_mesh(kc)); Ip = np.asarray(via_mesh(kpy))
+                    Fc = via_mesh(kc, mode)
+                else:
+                    Ic = np.asarray(call_kernel(kc, dict(full), cutoff=cutoff))
+                    Ip = np.asarray(call_kernel(kpy, dict(full), cutoff=cutoff))
+                    Fc = call_Fq(kc, dict(pars, radius_effective_mode=mode), cutoff=cutoff)
                 rawc = sas.raw_sums(kc, 3) if getattr(kc, "result", None) is not None else None
                 kpy.result = None
-                Fp = call_Fq(kpy, dict(pars, radius_effective_mode=mode), cutoff=cutoff)
+                Fp = via_mesh(kpy, mode) if unnorm else call_Fq(kpy, dict(pars, radius_effective_mode=mode), cutoff=cutoff)
                 rawp = sas.raw_sums(kpy, 3) if getattr(kpy, "result", None) is not None else None
             except Exception as exc:  # noqa
                 run.add(Finding("C09:error", "an execution path raised %r" % (exc,), desc))
@@ -474,7 +499,6 @@ def main(run):
             evals += 4
             stats["meshes"] += 1; stats["two_d"] += int(two_d); stats["cutoff_positive"] += int(cutoff > 0)
             # --- the definition's formula evaluated directly over the mesh (model-free oracle)
-            mesh = get_mesh(info, dict(full), dim="2d" if two_d else "1d")
             kmesh = mesh[2:2 + npars]
             lens = [len(mm[2]) for mm in kmesh]
             W = [np.asarray(mm[2], "d") for mm in kmesh]; V = [np.asarray(mm[1], "d") for mm in kmesh]
